@@ -225,7 +225,7 @@ class Run:
             "inconclusive": self.inconclusive,
             "known_finding_hits": self.known_hits,
         }
-        cov.update(jsonable(self.extra))
+        cov.update(jsonable({k: v for k, v in self.extra.items() if not k.startswith("_")}))
         ev = {
             "property_id": self.prop,
             "tier": self.tier,
